@@ -274,7 +274,11 @@ class MultiTanProcessor(object):
 
     def _tile_parallel(self, pio, cli_progress, parallel, **kwargs):
         import multiprocessing as mp
-        from .par_util import check_workers, put_checking_workers
+        from .par_util import (
+            check_workers,
+            finish_checking_workers,
+            put_checking_workers,
+        )
 
         # Start up the workers
 
@@ -299,8 +303,7 @@ class MultiTanProcessor(object):
 
         # Finish up
 
-        queue.close()
-        queue.join_thread()
+        finish_checking_workers(queue, workers, done_event)
         done_event.set()
 
         for w in workers:
